@@ -98,6 +98,9 @@ class TraceMonitor:
             self.delivered_datagrams_live[ep.name] += 1
             if not altered:
                 self.delivered_authentic_live[ep.name] += sum(1 for v in rec.views or [] if v.ptype not in ("padding", "unknown"))
+                if rec.sender == "frontend":
+                    # a genuine Retry / Version Negotiation packet built by the server's front-end (not shown to the tap)
+                    self.delivered_authentic_live[ep.name] += 1
 
     def after_deliver(self, *a, **k):
         pass
